@@ -97,6 +97,23 @@ def _rate_class(prog, name):
     return cands[0] if cands else None
 
 
+def _wavelength_family(oa):
+    """wavelength() and the private methods it delegates to (self-calls, transitively)."""
+    out, work = [], ['wavelength']
+    while work:
+        n = work.pop()
+        f = oa.methods.get(n)
+        if f is None or any(n == x for x, _ in out):
+            continue
+        out.append((n, f))
+        for c in ast.walk(f):
+            if isinstance(c, ast.Call) and (dotted(c.func) or '').startswith('self.') and dotted(c.func).count('.') == 1:
+                m = dotted(c.func)[5:]
+                if m != 'wavelength' and m in oa.methods:
+                    work.append(m)
+    return out
+
+
 def _accessors(run, prog, oa, getters):
     run.describe('C07-R1', "try around repository.get_* catches the getter's missing-data exception; handler returns Null iff missing_rates_return_null else re-raises")
     run.describe('C07-R2', 'constructor calls match the resolved __init__ signature')
@@ -104,9 +121,10 @@ def _accessors(run, prog, oa, getters):
     run.describe('C07-R5a', 'rate constructors receive extrapolate=self._permit_extrapolation')
     K = 'cherab.openadas.openadas|OpenADAS.'
     n_acc = 0
+    wfamily = {n for n, f in _wavelength_family(oa)}
     for mname, m in sorted(oa.methods.items()):
         calls = [c for c in ast.walk(m) if isinstance(c, ast.Call) and (dotted(c.func) or '').startswith('repository.get_')]
-        if not calls or mname == 'wavelength':
+        if not calls or mname in wfamily:
             continue
         n_acc += 1
         where = lambda n: (OA, getattr(n, 'lineno', m.lineno))
@@ -196,8 +214,16 @@ def _accessors(run, prog, oa, getters):
                 run.ok('C07-R2', '%s: %s' % (mname, norm(c)[:50]), '%s.__init__(%s)' % (ic.name, ', '.join(ps)))
             if 'extrapolate' in ps:
                 run.subject('C07-R5a')
-                if 'extrapolate' in b and norm(b['extrapolate']) == 'self._permit_extrapolation':
+                ex = b.get('extrapolate')
+                if isinstance(ex, ast.Name):
+                    # a local alias: every definition of the name in the accessor decides
+                    defs = [v for t, v, st in stores(m) if isinstance(t, ast.Name) and t.id == ex.id]
+                    if defs and all(norm(v) == norm(defs[0]) for v in defs):
+                        ex = defs[0]
+                if ex is not None and norm(ex) == 'self._permit_extrapolation':
                     run.ok('C07-R5a', '%s: %s' % (mname, c.func.id), 'extrapolate=self._permit_extrapolation')
+                elif ex is not None and not isinstance(ex, ast.Constant):
+                    run.undecided('C07-R5a', '%s: %s' % (mname, c.func.id), 'extrapolate=%s: not a constant and not the provider setting' % norm(ex))
                 else:
                     run.fail('C07-R5a', K + mname + '|extrapolate|' + c.func.id, *where(c),
                              what='%s builds %s with extrapolate=%s instead of the provider setting'
@@ -260,21 +286,37 @@ def _accessors(run, prog, oa, getters):
     w = oa.methods.get('wavelength')
     if w is None:
         raise AnalysisError('anchored method vanished: OpenADAS.wavelength')
-    p = params_of(w)[1]
-    for c in [c for c in ast.walk(w) if isinstance(c, ast.Call) and dotted(c.func) == 'repository.get_wavelength']:
-        run.subject('C07-R3')
-        a0 = norm(c.args[0])
-        f = facts(guards_of(w, c) or [])
-        in_handler = any(isinstance(t, ast.Try) and any(x is c for h in t.handlers for x in ast.walk(h)) for t in ast.walk(w))
-        if a0 == p:
-            run.ok('C07-R3', 'wavelength: direct lookup', norm(c)[:70])
-        elif a0 == p + '.element' and in_handler and any('self._wavelength_element_fallback' in a[0] and a[1] == 'true' for a in f):
-            run.ok('C07-R3', 'wavelength: element fallback', 'inside RuntimeError handler under _wavelength_element_fallback')
-        else:
-            run.fail('C07-R3', K + 'wavelength|strip', OA, c.lineno,
-                     "wavelength() looks up '%s' outside the documented fallback (guards %s, in handler %s)" % (a0, sorted(f), in_handler))
+    fam = _wavelength_family(oa)
+    wl_fns = [(n, f) for n, f in fam if any(isinstance(c, ast.Call) and dotted(c.func) == 'repository.get_wavelength' for c in ast.walk(f))]
+    if not wl_fns:
+        raise AnalysisError('OpenADAS.wavelength never reaches repository.get_wavelength')
+    hs = []
+    for wname, wf in wl_fns:
+        p = params_of(wf)[1]
+        if wf is not w:
+            # the private helper must receive the requested species itself
+            run.subject('C07-R3')
+            cs = [c for n, f in fam for c in ast.walk(f) if isinstance(c, ast.Call) and dotted(c.func) == 'self.' + wname]
+            p0 = params_of(w)[1]
+            if cs and all(c.args and norm(c.args[0]) == p0 for c in cs) and any(f is w for n, f in fam):
+                run.ok('C07-R3', 'wavelength: helper %s receives the requested species' % wname, p0)
+            else:
+                run.undecided('C07-R3', 'wavelength helper %s' % wname, 'species argument not recognised: %s' % [norm(c)[:60] for c in cs])
+                continue
+        for c in [c for c in ast.walk(wf) if isinstance(c, ast.Call) and dotted(c.func) == 'repository.get_wavelength']:
+            run.subject('C07-R3')
+            a0 = norm(c.args[0])
+            f = facts(guards_of(wf, c) or [])
+            in_handler = any(isinstance(t, ast.Try) and any(x is c for h in t.handlers for x in ast.walk(h)) for t in ast.walk(wf))
+            if a0 == p:
+                run.ok('C07-R3', 'wavelength: direct lookup', norm(c)[:70])
+            elif a0 == p + '.element' and in_handler and any('self._wavelength_element_fallback' in a[0] and a[1] == 'true' for a in f):
+                run.ok('C07-R3', 'wavelength: element fallback', 'inside RuntimeError handler under _wavelength_element_fallback')
+            else:
+                run.fail('C07-R3', K + 'wavelength|strip', OA, c.lineno,
+                         "wavelength() looks up '%s' outside the documented fallback (guards %s, in handler %s)" % (a0, sorted(f), in_handler))
+        hs += [h for t in ast.walk(wf) if isinstance(t, ast.Try) for h in t.handlers]
     run.subject('C07-R3')
-    hs = [h for t in ast.walk(w) if isinstance(t, ast.Try) for h in t.handlers]
     if hs and all(dotted(h.type) == 'RuntimeError' for h in hs):
         run.ok('C07-R3', 'wavelength: fallback handler', 'except RuntimeError')
     else:
@@ -323,6 +365,7 @@ def _rate_classes(run, prog):
     run.describe('C07-R4', 'evaluate(): every density/temperature/energy parameter guarded "<= 0 -> return 0" before interpolators/log10')
     run.describe('C07-R5', "Interpolator*Array extrapolation type is 'none' exactly when extrapolate is false")
     run.describe('C07-R6', 'unit wiring and axis/argument kind agreement')
+    run.describe('C07-R7', 'single-point axes: the degenerate branches of an interpolant agree with the full-grid branch (axis, argument position, table slice, length test)')
     n_interp = 0
     for ci in sorted(prog.classes.values(), key=lambda c: c.qual):
         if not ci.mod.relpath.startswith('cherab/openadas/rates/'):
@@ -401,10 +444,181 @@ def _rate_classes(run, prog):
                          % (ci.name, norm(v)))
         # ---- R6 unit wiring
         _units(run, prog, ci, init, ev, ldefs, K)
+        _degenerate_axes(run, ci, init, K)
+        _nonneg(run, ci, ev, K)
+    _degenerate_1d(run, prog)
     if n_interp < 13:
         raise AnalysisError('only %d interpolating rate classes found (floor 13)' % n_interp)
     run.floor('C07-R4', 40, 'obligations')
     run.floor('C07-R5', 20, 'obligations')
+
+
+def _inner(a):
+    """axis expression -> (array text, logged)"""
+    if isinstance(a, ast.Call) and dotted(a.func) in ('np.log10', 'log10') and a.args:
+        return norm(a.args[0]), True
+    return norm(a), False
+
+
+def _len1_facts(f):
+    return {l[4:-1] for (l, op, r) in f if op == '==' and r == '1' and l.startswith('len(') and l.endswith(')')}
+
+
+def _subst_bool_locals(guards, fn):
+    """Replace local names that have exactly one definition (a comparison or boolean expression) inside guard tests."""
+    defs = {}
+    for t, v, st in stores(fn):
+        if isinstance(t, ast.Name):
+            defs.setdefault(t.id, []).append(v)
+
+    class Sub(ast.NodeTransformer):
+        def visit_Name(self, n):
+            d = defs.get(n.id)
+            if d and len(d) == 1 and isinstance(d[0], (ast.Compare, ast.BoolOp, ast.UnaryOp)):
+                return d[0]
+            return n
+    out = []
+    for e, pol in guards:
+        if isinstance(e, ast.expr):
+            import copy
+            e = Sub().visit(copy.deepcopy(e))
+        out.append((e, pol))
+    return out
+
+
+def _degenerate_axes(run, ci, init, K):
+    """R7: the single-point branches of a 2D interpolant agree with the full-grid branch: the remaining axis is mapped to the
+    same argument position, uses the same axis array and the matching slice of the table, under the matching length test."""
+    by_field = {}
+    for t, v, st in stores(init):
+        if isinstance(t, ast.Attribute) and norm(t.value) == 'self' and isinstance(v, ast.Call):
+            by_field.setdefault(t.attr, []).append((v, st))
+    for fld, vs in sorted(by_field.items()):
+        ref = [v for v, st in vs if dotted(v.func) == 'Interpolator2DArray' and len(v.args) >= 3]
+        if len(vs) < 2 or len(ref) != 1:
+            continue
+        X, Y, T = ref[0].args[0], ref[0].args[1], norm(ref[0].args[2])
+        xa, ya = _inner(X)[0], _inner(Y)[0]
+        for v, st in vs:
+            if v is ref[0]:
+                continue
+            run.subject('C07-R7')
+            f = facts(_subst_bool_locals(guards_of(init, st) or [], init))
+            one = _len1_facts(f)
+            name = dotted(v.func)
+            key = K + '__init__|degenerate:%s:' % fld
+            if name == 'Constant2D' and len(v.args) == 1:
+                if norm(v.args[0]) == '%s[0, 0]' % T and {xa, ya} <= one:
+                    run.ok('C07-R7', '%s.%s single point' % (ci.name, fld), norm(v))
+                else:
+                    run.fail('C07-R7', key + 'constant', ci.mod.relpath, st.lineno,
+                             '%s.%s: the constant branch uses %s under len()==1 of %s; expected %s[0, 0] when both %s and %s have one point'
+                             % (ci.name, fld, norm(v.args[0]), sorted(one), T, xa, ya))
+            elif name == 'IsoMapper2D' and len(v.args) == 2 and isinstance(v.args[0], ast.Call) and dotted(v.args[0].func) == 'Arg2D' \
+                    and v.args[0].args and isinstance(v.args[0].args[0], ast.Constant) and isinstance(v.args[1], ast.Call) \
+                    and dotted(v.args[1].func) == 'Interpolator1DArray' and len(v.args[1].args) >= 2:
+                k = v.args[0].args[0].value
+                A, S = v.args[1].args[0], norm(v.args[1].args[1])
+                if k == 'x':
+                    want_axis, want_slices, gone = norm(X), ('%s[:, 0]' % T,), ya
+                elif k == 'y':
+                    want_axis, want_slices, gone = norm(Y), ('%s[0]' % T, '%s[0, :]' % T), xa
+                else:
+                    run.undecided('C07-R7', '%s.%s' % (ci.name, fld), "Arg2D(%r)" % k)
+                    continue
+                probs = []
+                if norm(A) != want_axis:
+                    probs.append("interpolates over %s but feeds it the '%s' argument, which the full grid uses for %s" % (norm(A), k, want_axis))
+                if S not in want_slices:
+                    probs.append('uses the table slice %s, expected %s' % (S, want_slices[0]))
+                if gone not in one:
+                    probs.append('is not under len(%s) == 1' % gone)
+                if probs:
+                    run.fail('C07-R7', key + 'isomapper:' + k, ci.mod.relpath, st.lineno,
+                             '%s.%s single-point branch %s: it does not reproduce the table the way the full-grid branch %s does'
+                             % (ci.name, fld, '; '.join(probs), norm(ref[0])[:60]))
+                else:
+                    run.ok('C07-R7', "%s.%s one axis ('%s')" % (ci.name, fld, k), norm(v)[:80])
+            else:
+                run.undecided('C07-R7', '%s.%s' % (ci.name, fld), 'branch form not recognised: ' + norm(v)[:60])
+
+
+def _degenerate_1d(run, prog):
+    """R7 (1D): 'Interpolator1DArray(x, f, ..) if len(f) > 1 else Constant1D(f[0])' -- the constant is the single table value."""
+    run.describe('C07-R7', 'single-point axes: the degenerate branches of an interpolant agree with the full-grid branch (axis, argument position, table slice, length test)')
+    n = 0
+    for mi in prog.modules.values():
+        if not mi.relpath.startswith('cherab/openadas/rates/') or mi.name.endswith('#pxd'):
+            continue
+        for e in ast.walk(mi.tree):
+            if isinstance(e, ast.IfExp) and isinstance(e.body, ast.Call) and dotted(e.body.func) == 'Interpolator1DArray' and len(e.body.args) >= 2:
+                n += 1
+                run.subject('C07-R7')
+                tab = norm(e.body.args[1])
+                axis = _inner(e.body.args[0])[0]
+                t = norm(e.test)
+                if not (isinstance(e.orelse, ast.Call) and dotted(e.orelse.func) == 'Constant1D' and len(e.orelse.args) == 1):
+                    run.undecided('C07-R7', mi.relpath, 'else branch not recognised: ' + norm(e.orelse)[:50])
+                elif norm(e.orelse.args[0]) != tab + '[0]' or t not in ('len(%s) > 1' % tab, 'len(%s) > 1' % axis):
+                    run.fail('C07-R7', '%s|degenerate-1d:%s' % (mi.name, tab), mi.relpath, e.lineno,
+                             'single-point branch is %s under the test %s; expected Constant1D(%s[0]) when the axis has one point'
+                             % (norm(e.orelse), t, tab))
+                else:
+                    run.ok('C07-R7', '%s 1D %s' % (mi.relpath.split('/')[-1], tab), norm(e)[:70], sample=False)
+    run.floor('C07-R7', 9)
+
+
+def _nonneg(run, ci, ev, K):
+    """R8: evaluate() is non-negative by construction: it returns 0, 10 ** (...), or a local that was tested '<= 0 -> return 0'
+    after its last multiplication by a linear-space interpolant."""
+    run.describe('C07-R8', 'evaluate() is non-negative by construction (0, 10**x, or a product clamped after its last linear-space factor)')
+
+    def pos(e, state):
+        if isinstance(e, ast.Constant) and isinstance(e.value, (int, float)):
+            return e.value >= 0
+        if isinstance(e, ast.BinOp) and isinstance(e.op, ast.Pow) and isinstance(e.left, ast.Constant) and e.left.value == 10:
+            return True
+        if isinstance(e, ast.BinOp) and isinstance(e.op, (ast.Mult, ast.Div, ast.Add)):
+            return pos(e.left, state) and pos(e.right, state)
+        if isinstance(e, ast.Name):
+            return state.get(e.id, False)
+        if isinstance(e, ast.Call) and dotted(e.func) in ('abs', 'fabs', 'exp', 'sqrt'):
+            return True
+        return False
+    state = {}
+    decided = True
+    for st in ev.body:
+        if isinstance(st, ast.Assign) and len(st.targets) == 1 and isinstance(st.targets[0], ast.Name):
+            state[st.targets[0].id] = pos(st.value, state)
+        elif isinstance(st, ast.AugAssign) and isinstance(st.target, ast.Name):
+            state[st.target.id] = isinstance(st.op, (ast.Mult, ast.Add, ast.Div)) and state.get(st.target.id, False) and pos(st.value, state)
+        elif isinstance(st, ast.If) and always_exits(st.body) and not st.orelse:
+            tests = st.test.values if isinstance(st.test, ast.BoolOp) and isinstance(st.test.op, ast.Or) else [st.test]
+            rets = [r for r in st.body if isinstance(r, ast.Return)]
+            zero = rets and all(isinstance(r.value, ast.Constant) and r.value.value == 0 for r in rets)
+            for t in tests:
+                if isinstance(t, ast.Compare) and len(t.ops) == 1 and isinstance(t.left, ast.Name) and isinstance(t.ops[0], (ast.LtE, ast.Lt)) \
+                        and norm(t.comparators[0]) in ('0', '0.0') and zero:
+                    state[t.left.id] = True
+            for r in rets:
+                if not pos(r.value, state):
+                    decided = False
+        elif isinstance(st, ast.Return):
+            run.subject('C07-R8')
+            if st.value is not None and pos(st.value, state):
+                run.ok('C07-R8', '%s.evaluate' % ci.name, 'returns %s' % norm(st.value)[:50], sample=False)
+            elif isinstance(st.value, ast.Name) and st.value.id in state:
+                run.fail('C07-R8', K + 'evaluate|may-be-negative', ci.mod.relpath, st.lineno,
+                         "%s.evaluate returns '%s' after multiplying it by a linear-space interpolant without a final '<= 0 -> return 0' "
+                         "test: a cubic spline that undershoots between grid points makes the rate negative" % (ci.name, st.value.id))
+            else:
+                run.undecided('C07-R8', '%s.evaluate' % ci.name, 'return form not recognised: %s' % norm(st.value)[:50])
+        elif isinstance(st, (ast.Expr, ast.AnnAssign, ast.Pass)):
+            continue
+        else:
+            decided = False
+    if not decided:
+        run.undecided('C07-R8', '%s.evaluate' % ci.name, 'statement forms outside the flat pattern')
 
 
 def _resolve(e, ldefs, depth=0):
@@ -524,6 +738,10 @@ _BEAM = 'cherab/openadas/rates/beam.pyx'
 _CX = 'cherab/openadas/rates/cx.pyx'
 _AT = 'cherab/openadas/rates/atomic.pyx'
 MUTANTS = [
+    dict(name='single-density-branch-wrong-argument', file=_BEAM, find="IsoMapper2D(Arg2D('x'), Interpolator1DArray(np.log10(e), sen[:, 0]", replace="IsoMapper2D(Arg2D('y'), Interpolator1DArray(np.log10(e), sen[:, 0]", occurrence=0, of=3, expect='C07-R7'),
+    dict(name='single-energy-branch-wrong-slice', file=_BEAM, find="Interpolator1DArray(np.log10(n), sen[0], ", replace="Interpolator1DArray(np.log10(n), sen[:, 0], ", occurrence=1, of=3, expect='C07-R7'),
+    dict(name='cx-single-point-constant-last-value', file='cherab/openadas/rates/cx.pyx', find="else Constant1D(qni[0])", replace="else Constant1D(qni[-1])", expect='C07-R7'),
+    dict(name='cx-final-clamp-removed', file='cherab/openadas/rates/cx.pyx', find="        rate *= self._b.evaluate(b_field)\n        if rate <= 0:\n            return 0.0\n", replace="        rate *= self._b.evaluate(b_field)\n", expect='C07-R8'),
     dict(name='handler-type-changed', file=OA, find="            data = repository.get_ionisation_rate(ion, charge, repository_path=self._data_path)\n\n        except RuntimeError:",
          replace="            data = repository.get_ionisation_rate(ion, charge, repository_path=self._data_path)\n\n        except (FileNotFoundError, KeyError):", expect='C07-R1'),
     dict(name='null-returned-unconditionally', file=OA, find="            if self._missing_rates_return_null:\n                return NullThermalCXRate()\n            raise",
